@@ -515,7 +515,7 @@ async fn read_half_timeline(ctx: &Ctx, seed: u64, id: usize) {
 }
 
 pub fn run(ctx: &Ctx) {
-    ctx.rule("cases = peer histories after a real handshake under three negotiated flag sets (pass-through only; + DIST_HDR_ATOM_CACHE; + FRAGMENTS): every control-message kind, payloads from a few bytes to 70 kB, distribution headers from the atom-cache sender model, legal fragmentations into 1..5 fragments, ticks, and junk frames (random bytes, truncated terms, wrong markers, non-tuples, bad payloads, fragment headers with inconsistent counts) at random positions, TCP writes sliced randomly; the sequence of values returned by Connection::receive_message is compared with the sequence of valid messages sent; plus slow-peer timelines for Connection::receive_message_from_read_half (ticks, silences longer than the caller's timeout between frames, frames arriving in pieces with short pauses): every call must return the next message; evaluations = messages and junk frames judged; distinct = distinct (flag set, wire form, control kind, junk kind) combinations");
+    ctx.rule("cases = peer histories after a real handshake under three negotiated flag sets (pass-through only; + DIST_HDR_ATOM_CACHE; + FRAGMENTS): every control-message kind, payloads from a few bytes to 70 kB, distribution headers from the atom-cache sender model, legal fragmentations into 1..5 fragments, ticks, and junk frames (random bytes, truncated terms, wrong markers, non-tuples, bad payloads, fragment headers with inconsistent counts) at random positions, also between the fragments of an open sequence and claiming to belong to it (fragment id 0, = count, > count), TCP writes sliced randomly; the sequence of values returned by Connection::receive_message is compared with the sequence of valid messages sent; plus slow-peer timelines for Connection::receive_message_from_read_half (ticks, silences longer than the caller's timeout between frames, frames arriving in pieces with short pauses): every call must return the next message; evaluations = messages and junk frames judged; distinct = distinct (flag set, wire form, control kind, junk kind) combinations");
     ctx.assume("a history ends with a pass-through sentinel message; a receive that fails with timeout/EOF ends the history");
     let rt = tokio::runtime::Builder::new_current_thread().enable_all().build().expect("runtime");
     let mut rng = Rng::derive(ctx.seed, 6, 1);
@@ -594,9 +594,51 @@ pub fn run(ctx: &Ctx) {
                         ctx.class(&format!("{:?}/junk/{}", mode, kind));
                     }
                     Item::Valid(s, frames) => {
-                        for f in frames {
+                        // malformed frames in the middle of an open fragmented sequence, some of them claiming to belong
+                        // to that very sequence: each costs its own error, the sequence still completes
+                        let embed = with_junk && frames.len() >= 2 && rng.chance(1, 2);
+                        let mut embedded: Vec<&'static str> = Vec::new();
+                        for (fi, f) in frames.iter().enumerate() {
+                            if embed && fi >= 1 && rng.chance(2, 3) {
+                                let seq = &frames[0][2..10];
+                                let count = frames.len() as u64;
+                                let cont = |id: u64, data: &[u8]| {
+                                    let mut b = vec![131u8, 70];
+                                    b.extend_from_slice(seq);
+                                    b.extend_from_slice(&id.to_be_bytes());
+                                    b.extend_from_slice(data);
+                                    b
+                                };
+                                let (kind, body): (&'static str, Vec<u8>) = match rng.below(7) {
+                                    0 => ("continuation-of-the-open-sequence-with-id-0", cont(0, &[1, 2, 3])),
+                                    1 => ("continuation-of-the-open-sequence-with-id=count", cont(count, &[1, 2, 3])),
+                                    2 => ("continuation-of-the-open-sequence-with-id>count", cont(*rng.pick(&[count + 1, 255, 1 << 32, u64::MAX]), &[])),
+                                    3 => ("continuation-of-an-unknown-sequence-inside-an-open-one", {
+                                        let mut b = cont(1, &[9]);
+                                        b[9] ^= 0x55;
+                                        b[2] ^= 0x55;
+                                        b
+                                    }),
+                                    4 => ("continuation-header-cut-short-inside-an-open-sequence", cont(1, &[])[..2 + rng.below(16)].to_vec()),
+                                    5 => ("random-bytes-inside-an-open-sequence", {
+                                        let nb = 1 + rng.below(20);
+                                        let mut b = rng.bytes(nb);
+                                        b[0] = 3;
+                                        b
+                                    }),
+                                    _ => ("truncated-term-inside-an-open-sequence", vec![112, 131, 104, 3, 97, 2]),
+                                };
+                                stream.extend(frame(&body));
+                                junk_frames += 1;
+                                frame_count += 1;
+                                embedded.push(kind);
+                                ctx.class(&format!("{:?}/junk/{}", mode, kind));
+                            }
                             stream.extend(frame(f));
                             frame_count += 1;
+                        }
+                        if !embedded.is_empty() {
+                            layout.push(format!("inside the next message's fragments: junk {:?}", embedded));
                         }
                         layout.push(format!("{}:{}#{}", s.form, s.kind, s.uid));
                         expected.push(s);
